@@ -552,6 +552,7 @@ func guardHolds(p5c *p5, fn *Func, at ast.Node, g guard) bool {
 
 type row struct {
 	prop  string
+	also  []string // further properties this row is a necessary condition of
 	id    string   // stable row id (part of the obligation key)
 	pkg   string   // package suffix, e.g. "decoder"
 	fn    string   // function name (bare, without package/receiver) — "" = any function of pkg
@@ -612,7 +613,7 @@ func runRows(prop string) func(p *Prog, r *Report) {
 		p5c.computeSummaries()
 		nRows := 0
 		for _, rw := range e1Rows {
-			if rw.prop != prop {
+			if rw.prop != prop && !containsStr(rw.also, prop) {
 				continue
 			}
 			nRows++
@@ -646,6 +647,9 @@ func runRows(prop string) func(p *Prog, r *Report) {
 						hit := false
 						ast.Inspect(em, func(n ast.Node) bool {
 							if bl, ok := n.(*ast.BasicLit); ok && strings.Contains(bl.Value, rw.emit.text) {
+								hit = true
+							}
+							if id, ok := n.(*ast.Ident); ok && id.Name == rw.emit.text {
 								hit = true
 							}
 							return true
@@ -786,4 +790,13 @@ func checkDisjunction(p *Prog, fn *Func, em ast.Node, want []string) string {
 func isIdentObj(info *types.Info, e ast.Expr, o types.Object) bool {
 	id, ok := ast.Unparen(e).(*ast.Ident)
 	return ok && info.ObjectOf(id) == o
+}
+
+func containsStr(xs []string, x string) bool {
+	for _, y := range xs {
+		if y == x {
+			return true
+		}
+	}
+	return false
 }
